@@ -422,55 +422,63 @@ func c20registry() []c20entry {
 				return orb.Geometry(out), true
 			}})
 	}
-	add(c20entry{name: "tilecover.Geometry", covers: []string{"tilecover.Geometry", "tilecover.Collection"}, readOnly: true,
-		call: func(g orb.Geometry) interface{} {
-			s, err := tilecover.Geometry(g, 5)
-			if err != nil {
-				return "error: " + err.Error()
-			}
-			return trueTiles(s)
-		},
-		typed: func(g orb.Geometry) (interface{}, bool) {
-			var s maptile.Set
-			var err error
-			switch x := g.(type) {
-			case nil:
-				return maptile.Set{}, true
-			case orb.Point:
-				s = tilecover.Point(x, 5)
-			case orb.MultiPoint:
-				s = tilecover.MultiPoint(x, 5)
-			case orb.LineString:
-				s = tilecover.LineString(x, 5)
-			case orb.MultiLineString:
-				s = tilecover.MultiLineString(x, 5)
-			case orb.Ring:
-				s, err = tilecover.Ring(x, 5)
-			case orb.Polygon:
-				s, err = tilecover.Polygon(x, 5)
-			case orb.MultiPolygon:
-				s, err = tilecover.MultiPolygon(x, 5)
-			case orb.Bound:
-				s = tilecover.Bound(x, 5)
-			default:
-				return nil, false
-			}
-			if err != nil {
-				return "error: " + err.Error(), true
-			}
-			return trueTiles(s), true
-		},
-		combine: func(c orb.Collection, ms []interface{}) (interface{}, bool) {
-			u := maptile.Set{}
-			for _, m := range ms {
-				s, ok := m.(maptile.Set)
-				if !ok {
-					return m, true // an error of a member is the collection's error
+	// zoom 5, and the two smallest zooms, where every shortcut through a bound or a single tile has to be right as well
+	for _, z := range []maptile.Zoom{5, 0, 1} {
+		z := z
+		zname := ""
+		if z != 5 {
+			zname = fmt.Sprintf(" (zoom %d)", z)
+		}
+		add(c20entry{name: "tilecover.Geometry" + zname, covers: []string{"tilecover.Geometry", "tilecover.Collection"}, readOnly: true,
+			call: func(g orb.Geometry) interface{} {
+				s, err := tilecover.Geometry(g, z)
+				if err != nil {
+					return "error: " + err.Error()
 				}
-				u.Merge(s)
-			}
-			return u, true
-		}})
+				return trueTiles(s)
+			},
+			typed: func(g orb.Geometry) (interface{}, bool) {
+				var s maptile.Set
+				var err error
+				switch x := g.(type) {
+				case nil:
+					return maptile.Set{}, true
+				case orb.Point:
+					s = tilecover.Point(x, z)
+				case orb.MultiPoint:
+					s = tilecover.MultiPoint(x, z)
+				case orb.LineString:
+					s = tilecover.LineString(x, z)
+				case orb.MultiLineString:
+					s = tilecover.MultiLineString(x, z)
+				case orb.Ring:
+					s, err = tilecover.Ring(x, z)
+				case orb.Polygon:
+					s, err = tilecover.Polygon(x, z)
+				case orb.MultiPolygon:
+					s, err = tilecover.MultiPolygon(x, z)
+				case orb.Bound:
+					s = tilecover.Bound(x, z)
+				default:
+					return nil, false
+				}
+				if err != nil {
+					return "error: " + err.Error(), true
+				}
+				return trueTiles(s), true
+			},
+			combine: func(c orb.Collection, ms []interface{}) (interface{}, bool) {
+				u := maptile.Set{}
+				for _, m := range ms {
+					s, ok := m.(maptile.Set)
+					if !ok {
+						return m, true // an error of a member is the collection's error
+					}
+					u.Merge(s)
+				}
+				return u, true
+			}})
+	}
 	add(c20entry{name: "wkb.Marshal/Encoder/Value", covers: []string{"wkb.Marshal", "wkb.MustMarshal", "wkb.MarshalToHex", "wkb.MustMarshalToHex", "wkb.Value", "wkb.(Encoder).Encode"}, readOnly: true,
 		call: func(g orb.Geometry) interface{} {
 			b, err := wkb.Marshal(g)
